@@ -272,6 +272,9 @@ impl<'tcx, 'b> Dumper<'tcx, 'b> {
                     }
                     if let Const::Unevaluated(u, _) = c.const_ {
                         items.push(("uneval", esc(&path(self.tcx, u.def))));
+                        if let Some(p) = u.promoted {
+                            items.push(("promoted", p.as_usize().to_string()));
+                        }
                     }
                     // statics referenced
                     if let Some(did) = c.check_static_ptr(self.tcx) {
@@ -567,6 +570,13 @@ fn dump_crate(tcx: TyCtxt<'_>) -> String {
             items.push(("name", esc(&tcx.item_name(did).to_string())));
         }
         items.push(("mir", d.dump()));
+        if matches!(kind, DefKind::Fn | DefKind::AssocFn | DefKind::Closure) {
+            let proms = tcx.promoted_mir(did);
+            let pj: Vec<String> = proms.iter().map(|pb| Dumper { tcx, body: pb, env }.dump()).collect();
+            if !pj.is_empty() {
+                items.push(("promoted", list(pj)));
+            }
+        }
         bodies.push(obj(items));
     }
 
